@@ -54,7 +54,7 @@ def run(chk: Check):
                        "ev": G.tau2_handmade_events(rng, transient=tr, nkeys=2 if chk.quick else 6)})
     for kind in ("prior_only", "bernoulli_direct", "finite_via_named_var", "bernoulli_two_children", "bernoulli_tempered",
                  "finite_int_current", "finite_start_outside", "finite_zero_prior", "residual_weak_dist",
-                 "bernoulli_outcomes_reversed", "finite_outcomes_unsorted", "finite_auto_name_clash"):
+                 "bernoulli_outcomes_reversed", "finite_outcomes_unsorted", "finite_auto_name_clash", "finite_grid_in_state"):
         traces.append({"hdr": {"kind": kind, "nontrivial": kind != "prior_only"},
                        "ev": G.discrete_events(rng, kind, nkeys=64 if chk.quick else 256)})
     chk.tv("Trace_Gibbs.tla", traces, tag="gibbs", nontrivial=lambda t: t["hdr"]["nontrivial"],
